@@ -739,6 +739,20 @@ def _shape_verdict(shape, T):
     return classify(shape, ['len(%s)' % T], scope={T})[0]
 
 
+def _element_of_call_result(fi, v):
+    """`v` denotes element k (a constant position) of the tuple returned by a
+    call of a library function that is not a numpy constructor: the unpacking
+    `a, b = f(...)` spelled through a temporary (`r = f(...); b = r[1]`)."""
+    x = du_expand(fi, v, inline=False)
+    if not (isinstance(x, ast.Subscript) and isinstance(x.value, ast.Call)):
+        return False
+    k = const_value(x.slice)
+    if not isinstance(k, int) or isinstance(k, bool):
+        return False
+    cn = call_name(x.value) or ''
+    return bool(cn) and not cn.startswith(('np.', 'numpy.')) and _alloc_parts(x.value) is None
+
+
 def _d1_coldstart(ck, mod):
     rule = 'C02.D1.coldstart'
     K = kcenters_roles(ck, rule, mod)
@@ -765,6 +779,8 @@ def _d1_coldstart(ck, mod):
             v = fi.def_value(site, name)
             if v is None:
                 continue            # warm start: unpacked from assign_to_nearest_center
+            if _element_of_call_result(fi, v):
+                continue            # the same, spelled `r = f(...); name = r[k]`
             found += 1
             x = cx(fi.expand(v))
             parts = _alloc_parts(x)
@@ -818,7 +834,9 @@ def _radius_alt(alt, D):
 
 def _radius_value(fi, v, K):
     """Three-valued recognition of a definition of the covering radius.
-    Returns (verdict, why, origin Name nodes of the distance array)."""
+    Returns (verdict, why, origin Name nodes of the distance array, kind):
+    kind is 'serial' (local maximum), 'mpi' (all-reduced maximum) or
+    'switch' (conditional expression on the serial/MPI flag)."""
     D, MPI = K['D'], K['MPI']
     x = du_expand(fi, v, stop=(D,))
     org = origins(x, D)
@@ -831,14 +849,15 @@ def _radius_value(fi, v, K):
         verdict = cls(xc, forms, scope={D, MPI} if MPI else {D})
         if verdict[0] == 'match':
             verdict = ('far', 0, None)
-        return verdict, '`%s` is not the maximum of the distance array `%s`' % (u(xc)[:120], D), org
+        return verdict, '`%s` is not the maximum of the distance array `%s`' % (u(xc)[:120], D), org, None
     if isinstance(xc, ast.IfExp):
         if not (isinstance(xc.test, ast.Name) and xc.test.id == MPI):
             verdict = classify(xc.test, [MPI or 'mpi_mode'], scope={MPI} if MPI else set())
-            return verdict, 'serial/MPI maximum selected by `%s`' % u(xc.test), org
+            return verdict, 'serial/MPI maximum selected by `%s`' % u(xc.test), org, None
         if kinds[0] != 'mpi':
-            return ('near', 1, None), 'MPI mode must use the all-reduced maximum', org
-    return ('match', {}), 'maximum of the current distances', org
+            return ('near', 1, None), 'MPI mode must use the all-reduced maximum', org, None
+        return ('match', {}), 'maximum of the current distances', org, 'switch'
+    return ('match', {}), 'maximum of the current distances', org, kinds[0]
 
 
 def _trip_bindings(fi, mod, w, call, name, idx):
@@ -884,6 +903,105 @@ def _returns_its_argument(mod, ppos, rpos):
     return True
 
 
+def _const_true(f):
+    """The fact is a literal truth (`while True:`, `while 1:`)."""
+    return not isinstance(f, Cmp) and f[0] == 'expr' and f[2] is True and \
+        isinstance(f[1], ast.Constant) and bool(f[1].value) and f[1].value is not None
+
+
+def continuation_facts(fi, mod, w, cstmt):
+    """The condition under which a trip of loop `w` reaches the statement
+    `cstmt` of its body: the conjuncts of the loop test plus those of every
+    branch condition inside the loop that dominates `cstmt` and whose other
+    arm leaves the loop for good (guard clauses `if not c: break`, in either
+    polarity / arm order).  Returns (facts, problems, exits): facts are
+    (fact, evaluation point) pairs - the point is the statement at which the
+    operands of the fact are read (the loop head or the `if`); problems are
+    texts about dominating conditions that are not such guard clauses; exits
+    are the break/return statements of the loop that belong to no recognised
+    guard clause (other ways out of the loop)."""
+    facts, problems = [], []
+    cs = conjuncts(w.test, True)
+    if cs is None:
+        return None, ['loop test is a disjunction'], []
+    facts += [(c, w) for c in cs if not _const_true(c)]
+    guard_ifs = set()
+    for a in fi.cfg.nodes:
+        if not isinstance(a, Assume) or a.owner is w or not _inside(mod, a.owner, w):
+            continue
+        if not fi.cfg.dominates(a, cstmt):
+            continue
+        sib = [b for b in fi.cfg.nodes if isinstance(b, Assume) and b.owner is a.owner and b.polarity != a.polarity]
+        if len(sib) != 1 or fi.cfg.reachable(sib[0], w) or fi.cfg.reachable(sib[0], cstmt):
+            problems.append('the other arm of `if %s` does not leave the loop' % u(a.test)[:80])
+            continue
+        guard_ifs.add(a.owner)
+        test = fi.expand(a.test)        # a named flag stands for its definition
+        cs = conjuncts(test, a.polarity)
+        if cs is None:
+            facts.append((('opaque', test, a.polarity), a.owner))
+        else:
+            facts += [(c, a.owner) for c in cs if not _const_true(c)]
+    exits = []
+    for s in walk_local(w):
+        if s is w or not isinstance(s, (ast.Break, ast.Return, ast.Raise)):
+            continue
+        # innermost enclosing loop must be w for a break
+        p = mod.parent.get(s)
+        inner = None
+        while p is not None and p is not w:
+            if isinstance(p, (ast.While, ast.For)) and inner is None:
+                inner = p
+            p = mod.parent.get(p)
+        if isinstance(s, ast.Break) and inner is not None:
+            continue
+        q, owned = mod.parent.get(s), False
+        while q is not None and q is not w:
+            if q in guard_ifs:
+                owned = True
+            q = mod.parent.get(q)
+        if not owned and not isinstance(s, ast.Raise):
+            exits.append(s)
+    return facts, problems, exits
+
+
+def _stale_between(fi, site, point, name, writers):
+    """Statements of `writers` (rebindings / in-place updates of an operand)
+    that can execute between the definition `site` of `name` and the read of
+    `name` at `point`, on a path without another definition of `name`."""
+    from ..cfg import stmt_defs
+    others = [d for d in fi.cfg.nodes if d not in (ENTRY, EXIT) and not isinstance(d, Assume)
+              and name in stmt_defs(d)]
+    out = []
+    for m in writers:
+        if m is site or m in others:
+            # a statement that defines both is a fresh definition of `name`
+            continue
+        if m is point:
+            continue
+        if fi.cfg.reachable(site, m, avoiding=others) and fi.cfg.reachable(m, point, avoiding=others):
+            out.append(m)
+    return out
+
+
+def _mpi_facts(fi, site, MPI):
+    """How the serial/MPI switch constrains the execution of `site`:
+    True / False (a dominating branch on the plain flag), None (no dominating
+    condition mentions it), 'opaque' (a condition the rule cannot resolve)."""
+    res = None
+    for f in dominating_facts(fi, site):
+        e, pol = fact_expr(f)
+        if MPI not in names_loaded(e):
+            continue
+        if not isinstance(f, Cmp) and f[0] == 'expr' and isinstance(e, ast.Name) and e.id == MPI:
+            if res not in (None, pol):
+                return 'opaque'
+            res = pol
+        else:
+            return 'opaque'
+    return res
+
+
 def d2_guard(ck):
     rule = 'C02.D2.guard'
     mod = ck.repo.mod(KC)
@@ -892,46 +1010,68 @@ def d2_guard(ck):
         return
     fn, fi, w, call = K['fn'], K['fi'], K['loop'], K['call']
     NC, DC, L, D = K['NC'], K['DC'], K['L'], K['D']
-    cs = conjuncts(w.test, True)
-    if cs is None:
+    cstmt = fi.stmt(call)
+    facts, problems, exits = continuation_facts(fi, mod, w, cstmt)
+    if facts is None:
         ck.bad(rule, mod, w, 'kcenters', u(w.test),
                'the loop must continue only while BOTH criteria ask for more centres; '
                'the guard is a disjunction, so clustering continues after one '
                'criterion is already met')
         return
+    shown = ' and '.join(str(f) if isinstance(f, Cmp) else ('' if f[2] else 'not ') + u(f[1])[:80] for f, _ in facts) or u(w.test)
+    for p in problems:
+        ck.missing(rule, 'condition on the way to the iteration call not recognised as a guard clause: %s' % p)
     count_ok = dist_ok = None
     extras = []
-    for c in cs:
+    for c, point in facts:
         less = c.as_less() if isinstance(c, Cmp) else None
         if less is None:
-            extras.append(c)
+            extras.append((c, point))
             continue
         small, strict, big = less
         xs, xb = cx(fi.expand(small)), cx(fi.expand(big))
         mlen = match('len(_L)', xs)
         if mlen is not None and u(xb) == NC and count_ok is None:
-            count_ok = (strict, u(mlen['_L']), c)
+            count_ok = (strict, u(mlen['_L']), c, point)
         elif u(xs) == DC and dist_ok is None:
-            dist_ok = (strict, big, c)
+            dist_ok = (strict, big, c, point)
         else:
-            extras.append(c)
+            extras.append((c, point))
     if extras:
         scope = {NC, DC, L, D} | ({dist_ok[1].id} if dist_ok and isinstance(dist_ok[1], ast.Name) else set())
-        for e in extras:
+        for e, point in extras:
             ex, pol = fact_expr(e)
+            if not isinstance(e, Cmp) and e[0] == 'opaque':
+                # the trip continues under a DISJUNCTION: about the criteria -> one of them alone
+                # keeps the loop going; about anything else -> not modelled
+                if names_loaded(ex) & scope:
+                    ck.bad(rule, mod, point, 'kcenters', u(ex)[:160],
+                           'the loop must continue only while BOTH criteria ask for more centres; '
+                           'the guard is a disjunction, so clustering continues after one '
+                           'criterion is already met')
+                else:
+                    ck.missing(rule, 'condition `%s` on the way to the iteration call' % u(ex)[:120])
+                continue
             if not pol:
                 ex = ast.UnaryOp(op=ast.Not(), operand=ex)
             v = classify(fi.expand(ex), ['len(%s) < %s' % (L, NC), '%s < __' % DC], scope=scope)
-            ck.decide(v if v[0] != 'match' else ('near', 0, None), rule, mod, w, 'kcenters', u(w.test), '',
+            ck.decide(v if v[0] != 'match' else ('near', 0, None), rule, mod, w, 'kcenters', shown, '',
                       'extra conjunct `%s` in the loop guard: the loop must stop exactly when the requested number '
                       'of centres is reached or the radius is no longer above the cutoff' % (
                           e if isinstance(e, Cmp) else u(ex)))
+    # a criterion that is not tested on the way to the iteration call: a
+    # violation if the guard is the only way out of the loop, else the test
+    # may sit at another exit (rotated loop) - not modelled
+    lacking = not extras and not problems
     if count_ok is None:
-        if not extras:
-            ck.bad(rule, mod, w, 'kcenters', u(w.test),
+        if lacking and not exits:
+            ck.bad(rule, mod, w, 'kcenters', shown,
                    'guard lacks the test len(<centre list>) < n_clusters')
+        elif lacking:
+            ck.missing(rule, 'test len(<centre list>) < n_clusters not found before the iteration call; the loop has other exits (%s)'
+                       % mod.loc(exits[0]))
     else:
-        strict, lst, c = count_ok
+        strict, lst, c, point = count_ok
         ck.check(strict, rule + '.count', mod, w, 'kcenters', str(c),
                  'continue only while count < n_clusters (strict)',
                  'count test must be strict (len(%s) < n_clusters): with <= one centre '
@@ -944,25 +1084,34 @@ def d2_guard(ck):
                  'the list counted by the guard (`%s`) is not the one handed to the '
                  'iteration (`%s`), so the count never changes / is stale' % (lst, L))
     if dist_ok is None:
-        if not extras:
-            ck.bad(rule, mod, w, 'kcenters', u(w.test),
+        if lacking and not exits:
+            ck.bad(rule, mod, w, 'kcenters', shown,
                    'guard lacks the test maxdist > dist_cutoff')
+        elif lacking:
+            ck.missing(rule, 'test radius > dist_cutoff not found before the iteration call; the loop has other exits (%s)'
+                       % mod.loc(exits[0]))
         return
-    strict, mdnode, c = dist_ok
+    strict, mdnode, c, point = dist_ok
     ck.check(strict, rule + '.radius', mod, w, 'kcenters', str(c),
              'continue only while radius > cutoff (strict)',
              'radius test must be strict (maxdist > dist_cutoff): with >= the loop '
              'keeps adding centres although the covering radius is no longer '
              'above the cutoff')
-    trip = _trip_bindings(fi, mod, w, call, D, 1)
-    outer_d = {d for d in fi.rd.defs_at(w, D) if d in ('PARAM', 'UNBOUND') or not _inside(mod, d, w)}
     if not isinstance(mdnode, ast.Name):
         # the radius is recomputed inside the guard itself
-        verdict, why, org = _radius_value(fi, mdnode, K)
+        verdict, why, org, kind = _radius_value(fi, mdnode, K)
         ck.decide(verdict, rule + '.radius', mod, w, 'kcenters', u(mdnode), why, why)
         return
     md = mdnode.id
-    defs = fi.rd.defs_at(w, md)
+    from ..cfg import stmt_defs
+    # everything that changes the distance array: rebindings, in-place updates, and the iteration call
+    # itself (it updates the array it is handed)
+    writers = [s for s in fi.cfg.nodes if s not in (ENTRY, EXIT) and not isinstance(s, Assume) and D in stmt_defs(s)]
+    writers += [s for s in fi._mutated_in_place(D) if s not in writers]
+    if cstmt not in writers:
+        writers.append(cstmt)
+    trip = set(_trip_bindings(fi, mod, w, call, D, 1)) | {cstmt}
+    defs = fi.rd.defs_at(point, md)
     for site in defs:
         if site in ('PARAM', 'UNBOUND'):
             ck.bad(rule + '.radius', mod, w, 'kcenters', md,
@@ -972,33 +1121,53 @@ def d2_guard(ck):
         if v is None:
             ck.missing(rule + '.radius', 'definition of `%s` at %s is not a simple assignment' % (md, mod.loc(site)))
             continue
-        verdict, why, org = _radius_value(fi, v, K)
+        verdict, why, org, kind = _radius_value(fi, v, K)
         if verdict[0] == 'match':
             if not org or any(o is None for o in org):
                 ck.missing(rule + '.radius', 'provenance of `%s` in `%s` not established' % (D, u(site)[:100]))
                 continue
-            used = set()
-            for o in org:
-                used |= fi.defs_of_use(o)
-            if _inside(mod, site, w):
-                ok = bool(trip) and used == set(trip)
-                if not ok and _returns_its_argument(mod, 2, 1):
-                    # the iteration hands back the very array it received: the
-                    # array passed to this trip's call, read after the call, IS
-                    # the returned one
-                    arg = arg_or_kw(call, 2, 'distances')
-                    cst = fi.stmt(call)
-                    ok = isinstance(arg, ast.Name) and used == fi.defs_of_use(arg) and \
-                        fi.rd.defs_at(site, D) == fi.rd.defs_at(cst, D) and \
-                        not fi.cfg.reachable(w, site, avoiding=[cst])
-                why = 'radius recomputed from the distances returned by this trip' if ok else \
-                    'radius on the back edge is not computed from the distances returned by this trip'
+            # the operand is the distance array as it is when the guard is
+            # evaluated: same binding, nothing written to it in between
+            stale = _stale_between(fi, site, point, md, writers)
+            inloop = _inside(mod, site, w)
+            if not stale:
+                why = 'radius recomputed from the distances returned by this trip' if inloop else \
+                    'radius before the first trip computed from the distances the first trip starts with'
+                ck.ok(rule + '.radius', mod, site, u(site), why)
+            elif any(m in trip for m in stale):
+                why = 'radius on the back edge is not computed from the distances returned by this trip' if inloop else \
+                    'initial radius is not computed from the distances the loop starts with / is not refreshed after a trip'
+                ck.bad(rule + '.radius', mod, site, 'kcenters', u(site),
+                       'definition of `%s` reaching the guard: %s (`%s` changes `%s` before the guard reads `%s`)' % (
+                           md, why, u(stale[0])[:80], D, md))
             else:
-                ok = used == outer_d
-                why = 'radius before the first trip computed from the distances the first trip starts with' if ok else \
-                    'initial radius is not computed from the distances the loop starts with'
-            ck.check(ok, rule + '.radius', mod, site, 'kcenters', u(site),
-                     why, 'definition of `%s` reaching the guard: %s' % (md, why))
+                ck.missing(rule + '.radius', '`%s` is modified (%s) between the radius `%s` and the guard' % (
+                    D, u(stale[0])[:80], u(site)[:80]))
+                continue
+            # serial / MPI: in MPI mode every rank must test the all-reduced maximum
+            if K['MPI'] and kind == 'serial':
+                mf = _mpi_facts(fi, site, K['MPI'])
+                if mf is None:
+                    others = [d for d in defs if d not in ('PARAM', 'UNBOUND') and d is not site]
+                    serial_only = [a for a in fi.cfg.nodes if isinstance(a, Assume) and a.polarity is False
+                                   and isinstance(a.test, ast.Name) and a.test.id == K['MPI']]
+                    if not fi.cfg.reachable(site, point, avoiding=others + serial_only):
+                        mf = False      # on the MPI path another definition takes over before the guard
+                    else:
+                        # chosen against another definition by a condition that is not the flag: not resolved
+                        for a in fi.cfg.nodes:
+                            if isinstance(a, Assume) and fi.cfg.dominates(a, site) and any(
+                                    isinstance(b, Assume) and b.owner is a.owner and b is not a and
+                                    any(fi.cfg.dominates(b, d) for d in others) for b in fi.cfg.nodes):
+                                mf = 'opaque'
+                if mf is True or mf is None:
+                    ck.bad(rule + '.radius.mpi', mod, site, 'kcenters', u(site),
+                           'in mpi_mode the guard must test the maximum over ALL ranks (mpi.ops.striped_array_max): with the '
+                           'local maximum the ranks leave the loop at different trips')
+                elif mf == 'opaque':
+                    ck.missing(rule + '.radius.mpi', 'condition on `%s` under which `%s` is executed' % (K['MPI'], u(site)[:80]))
+                else:
+                    ck.ok(rule + '.radius.mpi', mod, site, u(site), 'local maximum only in serial mode')
         else:
             ck.decide(verdict, rule + '.radius', mod, site, 'kcenters', u(site), why,
                       'definition of `%s` reaching the guard: %s' % (md, why))
@@ -1592,7 +1761,9 @@ def _kwargs_of_call(fi, mod, w, call, callee_name):
             if isinstance(v, ast.Name) and v.id == callee_name:
                 csites.append(d)
             elif isinstance(v, ast.IfExp):
-                return None
+                # `f = A if c else B`: this definition selects the callee on one of its arms
+                if any(isinstance(a, ast.Name) and a.id == callee_name for a in (v.body, v.orelse)):
+                    csites.append(d)
     elif isinstance(call.func, ast.Name) and call.func.id != callee_name:
         return None
     for sv in stars:
@@ -1743,6 +1914,93 @@ def _d5_guard(ck, rule, mod, q, s, facts, USE, A):
         ck.decide(verdict, rule, mod, s, q, shown, '', why_bad)
 
 
+def _is_commit_store(fi, st, t, D):
+    """`D[m] = X[m]` with m (after expansion of temporaries) the comparison
+    X < D / X <= D: the running-minimum commit (its strictness, the pairing
+    with the label store etc. are judged by C02.D5.commit)."""
+    if not (isinstance(st, ast.Assign) and len(st.targets) == 1 and st.targets[0] is t):
+        return False
+    v = st.value
+    if not (isinstance(v, ast.Subscript) and isinstance(v.value, ast.Name)):
+        return False
+    if fi.xu(v.slice, strict=False) != fi.xu(t.slice, strict=False):
+        return False
+    m = cx(fi.expand(t.slice, strict=False))
+    if not (isinstance(m, ast.Compare) and len(m.ops) == 1):
+        return False
+    less = Cmp(m.left, type(m.ops[0]), m.comparators[0]).as_less()
+    if less is None:
+        return False
+    small, _, big = less
+    return u(big) == D and u(small) == v.value.id
+
+
+def d5_sole_writer(ck):
+    """The array the next centre is the argmax of is the RUNNING MINIMUM of
+    the distances to the centres chosen so far only if nothing but the commit
+    `D[new < D] = new[new < D]` ever writes to it.  Every store the may-alias
+    analysis (sa/effects.py) attributes to the distance parameter of an
+    iteration function is therefore either that commit, or a VIOLATION when
+    the value written is a constant (not a distance to any centre), or
+    something the rule cannot judge."""
+    from ..patterns import shared
+    rule = 'C02.D5.commit.sole-writer'
+    mod = ck.repo.mod(KC)
+    _, ea = shared(ck.repo)
+    n = 0
+    for q in ITER_FUNCS:
+        fn = mod.func(q)
+        fi = finfo(mod, fn)
+        D = iteration_roles(fn)['D']
+        recs = [r for r in ea.store_records(KC, q) if D in r.get('params', ())]
+        seen = set()
+        for r in recs:
+            node = r.get('node')
+            if id(node) in seen:
+                continue
+            seen.add(id(node))
+            st = node if isinstance(node, ast.stmt) else None
+            tgts = []
+            if isinstance(st, ast.Assign):
+                tgts = [tt for t in st.targets for tt in (t.elts if isinstance(t, (ast.Tuple, ast.List)) else [t])
+                        if isinstance(tt, ast.Subscript)]
+            if r.get('kind') == 'subscript-store' and len(tgts) == 1 and _is_commit_store(fi, st, tgts[0], D):
+                n += 1
+                ck.ok(rule, mod, st, u(st), 'the running-minimum commit')
+                continue
+            if r.get('kind') == 'subscript-store' and isinstance(st, ast.Assign) and len(st.targets) == 1 \
+                    and len(tgts) == 1 and st.targets[0] is tgts[0]:
+                val = cx(fi.expand(st.value, strict=False))
+                k = const_value(val)
+                if isinstance(val, ast.Constant) and isinstance(k, (int, float)):
+                    ck.bad(rule, mod, st, q, u(st),
+                           'the constant %r is written into `%s` (through `%s`), the running-minimum distance array the next '
+                           'centre is the argmax of and the covering radius is the maximum of. It must change only through the '
+                           'commit %s[new < %s] = new[new < %s]: a cell set to a constant no longer is the distance of that frame '
+                           'to its nearest centre (after a warm start the listed frames are not the centres; a metric need not '
+                           'return exactly 0), so the farthest-point choice, the radius and the stopping point change' % (
+                               k, D, r.get('target'), D, D, D))
+                    continue
+            ck.missing(rule, '%s: `%s` also writes to the running-minimum distance array `%s` (%s); cannot tell that it keeps '
+                       'the minimum over the centres chosen so far' % (q, (r.get('construct') or '')[:100], D, r.get('kind')))
+    ck.floor(rule, n, 2, 'running-minimum commits among the stores into the distance array')
+    # kcenters itself only hands the array from trip to trip
+    K = kcenters_roles(ck, rule, mod)
+    if K is None:
+        return
+    fi, D = K['fi'], K['D']
+    for st in fi._mutated_in_place(D):
+        tg = st.targets[0] if isinstance(st, ast.Assign) and len(st.targets) == 1 else None
+        if isinstance(tg, ast.Subscript) and u(tg.value) == D:
+            val = cx(fi.expand(st.value, strict=False))
+            if isinstance(val, ast.Constant) and isinstance(const_value(val), (int, float)):
+                ck.bad(rule, mod, st, 'kcenters', u(st),
+                       'a constant is written into the running-minimum distance array `%s` outside the commit of the '
+                       'iteration: the cell no longer is the distance of that frame to its nearest centre' % D)
+                continue
+        ck.missing(rule, 'kcenters: `%s` writes to the running-minimum distance array `%s`' % (u(st)[:100], D))
+
+
 def check(ck):
     d1_farthest(ck)
     d2_guard(ck)
@@ -1750,6 +2008,7 @@ def check(ck):
     d3_unbound(ck)
     d4_criteria(ck)
     d5_triangle(ck)
+    d5_sole_writer(ck)
     kc = ck.repo.mod(KC)
     n = check_running_min_commit(ck, 'C02.D5.commit', kc, '_kcenters_iteration',
                                  True, 'len-before-append')
